@@ -12,6 +12,7 @@ package frr
 import (
 	"errors"
 	"fmt"
+	"os"
 	"testing"
 	"testing/synctest"
 	"time"
@@ -259,4 +260,103 @@ func c19Invariants(c c19Case, got []c19Attempt, submitted []int, tr *vw.Trace) *
 		tr.Class("coalesced")
 	}
 	return nil
+}
+
+// ---- the real reload action behind the debouncer ------------------------------------------------
+//
+// Same generated submissions / failure patterns, but the action is the real
+// generateAndReloadConfigFile (template -> write file -> signal the reloader), with only the
+// signalling step (the package variable reloadConfig) replaced by a scripted one that fails
+// according to the pattern and records which file content it was asked to load.
+
+func TestVerifC19Reload(t *testing.T) {
+	dir := t.TempDir()
+	file := dir + "/frr.conf"
+	t.Setenv("FRR_CONFIG_FILE", file)
+	vw.Run(t, vw.Options{Property: "C19", Engine: "frr-reload",
+		Rule: "as frr-debouncer, with the real generateAndReloadConfigFile as the action and a scripted reloader signal that fails per the pattern; after the failures stop the reloader must have been signalled successfully while the file held the rendering of the most recently submitted configuration; non-trivial = >=1 failed signal",
+		Assumptions: []string{"go1.26.8 testing/synctest", "the file on disk is what FRR loads when signalled"}},
+		func(rt *rapid.T) c19Case {
+			c := genC19(rt)
+			c.BodyNs = 0
+			return c
+		},
+		func(c c19Case, tr *vw.Trace) *vw.Violation {
+			type sig struct {
+				content string
+				ok      bool
+			}
+			var sigs []sig
+			lastSubmitted := ""
+			var verdict *vw.Violation
+			oldReload := reloadConfig
+			defer func() { reloadConfig = oldReload }()
+			_ = os.Remove(file)
+			synctest.Test(t, func(t *testing.T) {
+				n := 0
+				reloadConfig = func() error {
+					b, _ := os.ReadFile(file)
+					ok := !(n < len(c.Fails) && c.Fails[n])
+					n++
+					sigs = append(sigs, sig{string(b), ok})
+					if !ok {
+						return errors.New("reloader not reachable")
+					}
+					return nil
+				}
+				reload := make(chan reloadEvent)
+				debouncer(func(cfg *frrConfig) error { return generateAndReloadConfigFile(cfg, log.NewNopLogger()) }, reload, time.Duration(c.Debounce), time.Duration(c.Retry), log.NewNopLogger())
+				next, latest := 0, -1
+				for _, e := range c.Events {
+					time.Sleep(time.Duration(e.Delay))
+					ev := reloadEvent{}
+					switch e.Kind {
+					case 0:
+						next++
+						latest = next
+					case 1:
+						if latest < 0 {
+							next++
+							latest = next
+						}
+					case 2:
+						ev.useOld = true
+					case 3:
+						if latest < 0 {
+							next++
+						}
+						latest = 1
+					}
+					if !ev.useOld {
+						ev.config = &frrConfig{Hostname: fmt.Sprintf("cfg-%d", latest), Loglevel: "informational"}
+						lastSubmitted, _ = templateConfig(ev.config)
+					}
+					reload <- ev
+				}
+				time.Sleep(time.Duration(int64(len(c.Fails)+3)*c.Retry + 3*c.Debounce))
+				close(reload)
+				synctest.Wait()
+			})
+			failed := 0
+			for _, s := range sigs {
+				if !s.ok {
+					failed++
+				}
+			}
+			if failed > 0 {
+				tr.NonTrivial()
+			}
+			if lastSubmitted == "" {
+				return verdict
+			}
+			for i := len(sigs) - 1; i >= 0; i-- {
+				if sigs[i].ok {
+					if sigs[i].content != lastSubmitted {
+						return vw.Violationf("latest-not-loaded", "the last successful reloader signal was sent while the file held another configuration than the most recently submitted one (signals: %d, failed: %d)", len(sigs), failed)
+					}
+					return nil
+				}
+			}
+			return vw.Violationf("never-loaded", "a configuration was submitted and the failures stopped (pattern %v), but the reloader was never signalled successfully (%d signals, %d failed)", c.Fails, len(sigs), failed)
+		})
 }
